@@ -54,8 +54,8 @@ def showEngine (mode : String) (n : Nat) (c : Cfg) (s : Sys) : String :=
     | some tc, some td => decide (tc < td + c.delay)
     | some _, none => true
     | none, _ => false
-  let fifo := if mode == "direct" then b2s (s.printed == s.puts) else "-"
-  s!"sc={edigits (ecountsOf n (s.scans.map (·.id)))};pr={edigits (ecountsOf n s.printed)};er={edigits (ecountsOf n s.errLogged)};nput={if mode == "direct" then toString s.puts.length else "-"};nout={s.printed.length};fifo={fifo};doneok={b2s (s.doneClosed && allExited s.workers)};conc={b2s (decide (s.workers.length ≤ c.W))};ret={b2s (s.main == .returned)};early={b2s early};panic={b2s s.panicked}"
+  let fifo := if mode.startsWith "direct" then b2s (s.printed == s.puts) else "-"
+  s!"sc={edigits (ecountsOf n (s.scans.map (·.id)))};pr={edigits (ecountsOf n s.printed)};er={edigits (ecountsOf n s.errLogged)};nput={if mode.startsWith "direct" then toString s.puts.length else "-"};nout={s.printed.length};fifo={fifo};doneok={b2s (s.doneClosed && allExited s.workers)};conc={b2s (decide (s.workers.length ≤ c.W))};ret={b2s (s.main == .returned)};early={b2s early};panic={b2s s.panicked}"
 
 def parseEngineObs (s : String) : Option Spec.Engine.Obs := do
   let m := ekvs s
